@@ -35,6 +35,12 @@ lines = []
 for text, items in RC:
     for prop, prim, mode, kind, where in items:
         lines.append("known: property=%s prim=%s mode=%s kind=%s where=%s :: %s" % (prop, prim, mode, kind, where, text))
+# entries that matched nothing in BOTH tiers on the current tree (tools/prune_known.py after a full quick + thorough run) are dropped, so
+# that a stale entry cannot mask a new violation
+PRUNED = os.path.join(HERE, "tools", "pruned_known.txt")
+if os.path.exists(PRUNED):
+    drop = set(l.strip() for l in open(PRUNED) if l.strip())
+    lines = [l for l in lines if l.split(" :: ")[0] not in drop]
 with open(path, "w") as f:
     f.write("\n".join(keep + lines) + "\n")
 print("known entries:", len(lines))
